@@ -101,12 +101,41 @@ def calls(rng, tg, nrandom):
         out.append(("div", (t,), {"pathop": True, "kq": False, "kf": False}))
         out.append(("joinpath", (t, "z"), {"pathop": True, "kq": False, "kf": False}))
     out.append(("parent", (), {"pathop": True, "kq": False, "kf": False}))
+    # two-step chains: the frame must also hold for what a derived URL hands out
+    for t in ["v1", "a b", "x.y"]:
+        out.append(("div.parent", (t,), {"pathop": True, "kq": False, "kf": False}))
+        out.append(("joinpath.parent", (t,), {"pathop": True, "kq": False, "kf": False}))
+        out.append(("with_name.parent", (t,), {"pathop": True, "kq": False, "kf": False}))
+        out.append(("div.div", (t,), {"pathop": True, "kq": False, "kf": False}))
+        out.append(("with_query.div", (t,), {"pathop": True, "kq": False, "kf": False}))
+        out.append(("with_fragment.with_name", (t,), {"pathop": True, "kq": False, "kf": False}))
+    out.append(("parent.parent", (), {"pathop": True, "kq": False, "kf": False}))
+    out.append(("with_user.origin", ("x",), {"origin": True}))
+    out.append(("with_path.relative", ("/r",), {"relative_of_path": True}))
     out.append(("origin", (), {"origin": True}))
     out.append(("relative", (), {"relative": True}))
     return out
 
 
 def do_call(u, name, args, spec):
+    if name == "div.parent":
+        return (u / args[0]).parent
+    if name == "joinpath.parent":
+        return u.joinpath(args[0]).parent
+    if name == "with_name.parent":
+        return u.with_name(args[0]).parent
+    if name == "div.div":
+        return u / args[0] / "k"
+    if name == "with_query.div":
+        return u.with_query(zz="1") / args[0]
+    if name == "with_fragment.with_name":
+        return u.with_fragment("zz").with_name(args[0])
+    if name == "parent.parent":
+        return u.parent.parent
+    if name == "with_user.origin":
+        return u.with_user(args[0]).origin()
+    if name == "with_path.relative":
+        return u.with_path(args[0], keep_query=True, keep_fragment=True).relative()
     if name == "div":
         return u / args[0]
     if name == "parent":
@@ -206,6 +235,8 @@ def check(ctx, base_text, u, bv, name, args, spec, bshape, encoded_base=False):
     elif spec.get("origin"):
         exp.update(raw_user=None, raw_password=None, raw_query_string="", raw_fragment="")
         exp["raw_path"] = "/"
+    elif spec.get("relative_of_path"):
+        exp.update(scheme="", raw_user=None, raw_password=None, raw_host=None, explicit_port=None, raw_path="/r")
     elif spec.get("relative"):
         exp.update(scheme="", raw_user=None, raw_password=None, raw_host=None, explicit_port=None)
         if bv["raw_path"] == "/" and rv["raw_path"] == "":
